@@ -35,7 +35,7 @@ theorem next_fallOfJump (F : Final labels opt rid items visited g) (i lv t : Nat
     exact Or.inr (Or.inl ⟨rfl, rfl⟩)
 
 theorem ljump_keys (i lv t : Nat) (prev : Item) (r : MOp) (lid : Nat) (c : Bool) (S : List (Nat × Nat))
-    (hS : S = n1F opt items lv i prev (.ljump r lid c) ++ [(lv + 1, t)] ++ holdF items lv i (.ljump r lid c))
+    (hS : S = n1F opt items lv i prev (.ljump r lid c) ++ [(lv + 1, t)] ++ holdF opt items lv i prev (.ljump r lid c))
     (hkeys : ∀ l d, (i, l, d) ∈ keys g ↔ (l, d) ∈ S)
     (hok : itemNameOk (.ljump r lid c) = true) :
     (i, lv + 1, t) ∈ keys g ∧
@@ -51,7 +51,7 @@ theorem ljump_keys (i lv t : Nat) (prev : Item) (r : MOp) (lid : Nat) (c : Bool)
       · have := n1F_mem _ _ _ _ _ _ _ h; simp only [Prod.mk.injEq] at this
         exact Or.inr ⟨this.1.1, this.1.2, this.2⟩
       · simp only [List.mem_singleton, Prod.mk.injEq] at h; exact Or.inl h
-    · have := holdF_mem _ _ _ _ _ h; simp only [Prod.mk.injEq] at this
+    · have := holdF_mem _ _ _ _ _ _ _ h; simp only [Prod.mk.injEq] at this
       exact Or.inr ⟨this.1.1, this.1.2, this.2⟩
   · intro hnj hl
     have he : ESV.Spec.opsEndFlow.contains r.name = false := by
